@@ -1,7 +1,13 @@
 use std::{
     io,
     ops::Deref,
-    sync::{Arc, atomic::Ordering::Acquire},
+    sync::{
+        Arc,
+        atomic::{
+            AtomicUsize,
+            Ordering::{Acquire, Relaxed},
+        },
+    },
 };
 
 use bytes::BufMut;
@@ -68,6 +74,8 @@ pub struct Burst {
     spaces: Spaces,
 
     tls_handshake: ArcTlsHandshake,
+    // bytes loaded into earlier segments of the current burst, not yet charged to the anti-amplifier
+    loaded: AtomicUsize,
 }
 
 impl super::Path {
@@ -84,6 +92,7 @@ impl super::Path {
             spin: false, // TODO
             spaces: components.spaces.clone(),
             tls_handshake: components.tls_handshake.clone(),
+            loaded: AtomicUsize::new(0),
         }
     }
 }
@@ -299,7 +308,7 @@ where
 
 impl Burst {
     fn assembler<'a>(&'a self) -> Result<PacketsAssembler<'a>, BurstError> {
-        PacketsAssembler::new(
+        let mut assembler = PacketsAssembler::new(
             &self.cid_registry,
             &self.path.dcid_cell,
             &self.path.anti_amplifier,
@@ -307,7 +316,14 @@ impl Burst {
             self.path.tx_waker.clone(),
             &self.initial_token,
             self.spin,
-        )
+        )?;
+        // the anti-amplifier is charged after the whole burst is sent: segments of this burst
+        // that are already loaded must not be paid from the same credit again
+        assembler.constraints.commit(self.loaded.load(Relaxed), false);
+        if !assembler.constraints.is_available() {
+            return Err(BurstError::Signals(Signals::CREDIT));
+        }
+        Ok(assembler)
     }
 
     fn load_spaces(
@@ -532,6 +548,7 @@ impl Burst {
         if buffers.len() < max_segments {
             buffers.resize_with(max_segments, || vec![0; max_segment_size]);
         }
+        self.loaded.store(0, Relaxed);
 
         use core::ops::ControlFlow::*;
 
@@ -572,6 +589,7 @@ impl Burst {
                         e @ BurstError::PathDeactived => Err(e),
                     })
                     .map(|(packet_size, _)| {
+                        self.loaded.fetch_add(reversed_size + packet_size, Relaxed);
                         if reversed_size > 0 {
                             let (mut header, payload) = segment.split_at_mut(reversed_size);
                             let forward_hdr = ForwardHeader::new(
